@@ -475,6 +475,119 @@ fn relation(
     Some((strict, lenient))
 }
 
+/// A2ML blocks that cannot be interpreted, alone, behind a valid block of another MODULE, or next to a
+/// built-in definition: an A2ML problem is reported in non-strict mode, so strict mode must fail
+/// (no IF_DATA in these documents)
+fn a2ml_definitions_case(rng: &mut Rng, rec: &mut Recorder) {
+    let valid = "\n  block \"IF_DATA\" taggedunion { \"OK\" uint; };\n";
+    let broken = *rng.pick(&[
+        "\n  block \"IF_DATA\" struct { int; \n",
+        "\n  block IF_DATA struct { int; };\n",
+        "\n  struct { unknown_type x; };\n",
+        "\n  block \"IF_DATA\" taggedunion { \"A\" };;; }\n",
+    ]);
+    let module = |name: &str, a2ml: Option<&str>| {
+        let a = a2ml.map_or(String::new(), |t| format!("/begin A2ML{t}/end A2ML\n"));
+        format!("/begin MODULE {name} \"\"\n{a}/begin MEASUREMENT x \"\" UBYTE NO_COMPU_METHOD 0 0 0 255\n/end MEASUREMENT\n/end MODULE\n")
+    };
+    let (label, modules, spec): (&str, String, Option<String>) = match rng.below(5) {
+        0 => ("broken_block_alone", module("m1", Some(broken)), None),
+        1 => ("valid_then_broken", format!("{}{}", module("m1", Some(valid)), module("m2", Some(broken))), None),
+        2 => ("broken_then_valid", format!("{}{}", module("m1", Some(broken)), module("m2", Some(valid))), None),
+        3 => ("broken_block_with_built_in_definition", module("m1", Some(broken)), Some(valid.to_string())),
+        _ => ("valid_blocks", format!("{}{}", module("m1", Some(valid)), module("m2", Some(valid))), Some(valid.to_string())),
+    };
+    let text = format!("ASAP2_VERSION 1 71\n/begin PROJECT p \"\"\n{modules}/end PROJECT\n");
+    rec.nontrivial(format!("{label}{text}").as_bytes());
+    rec.bump(&format!("a2ml_definitions.{label}"));
+    let strict = crate::gram::load_str_spec(&text, spec.clone(), true);
+    let lenient = crate::gram::load_str_spec(&text, spec, false);
+    let (Ok(strict), Ok(lenient)) = (strict, lenient) else {
+        rec.violation("panic while loading a document with A2ML blocks", label, witness_text("A2ML definitions", &text, label));
+        return;
+    };
+    match (&strict, &lenient) {
+        (Ok(_), Ok((_, log))) => {
+            let problems: Vec<String> = log.iter().map(short_class).filter(|c| !is_deprecation(c)).collect();
+            if !problems.is_empty() {
+                rec.violation(
+                    &format!("R3: strict succeeds although non-strict reports {} [{label}]", problems[0]),
+                    &format!("non-strict problems: {problems:?}"),
+                    witness_text("A2ML definitions", &text, label),
+                );
+            }
+        }
+        (Err(e), Ok((_, log))) => {
+            if log.iter().map(short_class).all(|c| is_deprecation(&c)) {
+                rec.violation(
+                    &format!("R3: strict fails ({}) although non-strict reports only deprecation notices [{label}]", short_class(e)),
+                    &e.to_string(),
+                    witness_text("A2ML definitions", &text, label),
+                );
+            }
+        }
+        (Ok(_), Err(e)) => rec.violation(
+            &format!("R1: strict succeeds but non-strict fails [{label}]"),
+            &e.to_string(),
+            witness_text("A2ML definitions", &text, label),
+        ),
+        (Err(_), Err(_)) => {}
+    }
+}
+
+/// tokens behind /end PROJECT that stand in an include file: the diagnostic must name that file
+fn stray_tokens_in_include_case(rng: &mut Rng, rec: &mut Recorder, scratch: &std::path::Path, case: u64) {
+    let root = scratch.join(format!("c06inc_{case}"));
+    let _ = std::fs::remove_dir_all(&root);
+    std::fs::create_dir_all(&root).unwrap();
+    let doc = "ASAP2_VERSION 1 71\n/begin PROJECT p \"\"\n/begin MODULE m \"\"\n/end MODULE\n/end PROJECT\n";
+    let stray = "\nstray_token 1 2\n";
+    let (label, main_text, inc_name, inc_text, stray_line): (&str, String, &str, String, u32) = if rng.coin() {
+        ("whole_document_in_include", "/include \"body.a2l\"\n".to_string(), "body.a2l", format!("{doc}{stray}"), 7)
+    } else {
+        ("trailer_include", format!("{doc}/include trailer.a2l\n"), "trailer.a2l", format!("\n\n{stray}"), 4)
+    };
+    std::fs::write(root.join(inc_name), &inc_text).unwrap();
+    let main = root.join("main.a2l");
+    std::fs::write(&main, &main_text).unwrap();
+    rec.bump(&format!("stray_tokens_in_include.{label}"));
+    rec.nontrivial(format!("{label}{main_text}{inc_text}").as_bytes());
+    let w = witness_text("stray tokens in an include file", &main_text, &format!("{inc_name}: {inc_text:?}"));
+    for strict in [false, true] {
+        let r = guarded(|| a2lfile::load(&main, None, strict));
+        let diags: Vec<A2lError> = match r {
+            Err((sig, detail)) => {
+                rec.violation(&sig, &detail, w.clone());
+                continue;
+            }
+            Ok(Ok((_, log))) => log,
+            Ok(Err(e)) => vec![e],
+        };
+        let Some(d) = diags.iter().find(|e| short_class(e) == "AdditionalTokensError") else {
+            rec.violation(
+                &format!("tokens behind /end PROJECT are not reported (strict={strict}) [{label}]"),
+                &format!("{:?}", diags.iter().map(|e| e.to_string()).collect::<Vec<_>>()),
+                w.clone(),
+            );
+            continue;
+        };
+        rec.bump("diag.positions_checked");
+        match position_of(d) {
+            Some((file, line)) => {
+                if !file.ends_with(inc_name) || line != stray_line {
+                    rec.violation(
+                        &format!("diagnostic AdditionalTokensError does not carry the include file and line of the token [{label}]"),
+                        &format!("strict={strict}: reported {file}:{line}, the token stands in {inc_name}:{stray_line}: {d}"),
+                        w.clone(),
+                    );
+                }
+            }
+            None => rec.bump("diag.without_position"),
+        }
+    }
+    let _ = std::fs::remove_dir_all(&root);
+}
+
 fn text_has_ifdata(text: &str) -> bool {
     text.contains("IF_DATA") || text.contains("A2ML")
 }
@@ -489,6 +602,14 @@ pub fn run(args: &Args, rec: &mut Recorder) {
     let scratch = crate::c03::scratch_dir(args);
     run_cases(args, rec, total, crate::util::reset_budget, |rng, case, rec| {
         rec.eval();
+        if case % 40 == 13 {
+            a2ml_definitions_case(rng, rec);
+            return None;
+        }
+        if case % 40 == 33 {
+            stray_tokens_in_include_case(rng, rec, &scratch, case);
+            return None;
+        }
         let variant = case % 10;
         if variant >= 8 {
             // hostile / hard-fault inputs: relation only
